@@ -106,6 +106,61 @@ def o1_claim(chk, prog, n):
     chk.end(ob)
 
 
+def o1_reclaim(chk, prog):
+    """A server connection changes hands: S serves client P, P moves on to another server S2 (S2.claim(P)), then S is claimed by client Q.
+    P's entry must still name S2 -- P may be running a statement there that it wants to cancel."""
+    name = 'O1-reclaim'
+    ob = chk.begin(name, 'Server::claim three times (all ids and keys symbolic): S.claim(P), S2.claim(P) (P was released from S and now runs on S2), S.claim(Q): '
+                   'afterwards P -> S2 (unless Q == P) and Q -> S; whatever S remembers about its previous claimant must not touch an entry that no longer names S',
+                   {'claims': 3})
+    claim = fn(prog, 'Server::claim')
+    ip = chk.interp(prog, name)
+    install_stats_noops(ip)
+
+    def harness(ip_):
+        m = MapV('hashmap')
+        csm = Ptr(Cell(Agg([m], 'Lock'), 'csmap'))
+        ids = {k: ip_.fresh(32, k) for k in ('s_pid', 's_key', 's2_pid', 's2_key', 'p_pid', 'p_key', 'q_pid', 'q_key')}
+        ip_.assume(z3.Or(ids['s_pid'].v != ids['s2_pid'].v, ids['s_key'].v != ids['s2_key'].v))
+        s1 = Ptr(Cell(mk_server(ip_, prog, StreamV([], 'server'), process_id=ids['s_pid'], secret_key=ids['s_key'], client_server_map=csm), 'server'))
+        s2 = Ptr(Cell(mk_server(ip_, prog, StreamV([], 'server2'), process_id=ids['s2_pid'], secret_key=ids['s2_key'], client_server_map=csm), 'server2'))
+        ip_.call_function(claim, [s1, ids['p_pid'], ids['p_key']])
+        ip_.call_function(claim, [s2, ids['p_pid'], ids['p_key']])
+        ip_.call_function(claim, [s1, ids['q_pid'], ids['q_key']])
+        ob.nontrivial += 1
+        same = z3.And(ids['p_pid'].z() == ids['q_pid'].z(), ids['p_key'].z() == ids['q_key'].z())
+        # P's entry
+        pe = [e for e in m.entries if decide(ip_, key_is(e[0], ids['p_pid'], ids['p_key']))]
+        maybe_pe = [e for e in m.entries if ip_.is_sat(key_is(e[0], ids['p_pid'], ids['p_key']))]
+        bad = None
+        mm = None
+        if len(maybe_pe) == 0 or (len(pe) == 0 and ip_.is_sat(z3.Not(same))):
+            mm = ip_.model_for(z3.Not(same))
+            bad = 'P has no entry any more'
+        else:
+            for e in maybe_pe:
+                v = e[1].val
+                c = z3.And(key_is(e[0], ids['p_pid'], ids['p_key']), z3.Not(same), z3.Not(z3.And(v.fields[0].z() == ids['s2_pid'].z(), v.fields[1].z() == ids['s2_key'].z())))
+                mm = ip_.model_for(c)
+                if mm is not None:
+                    bad = 'P\'s entry does not name S2'
+                    break
+        if bad:
+            g = lambda k: s32(ev(mm, ids[k]))
+            want = [[g('p_pid'), g('p_key'), g('s2_pid'), g('s2_key'), '127.0.0.2', 5433], [g('q_pid'), g('q_key'), g('s_pid'), g('s_key'), '127.0.0.1', 5432]]
+            chk.report(ob, 'C10/O1/reclaim-drops-live-entry', 'after S.claim(P), S2.claim(P), S.claim(Q): %s -- a CancelRequest with P\'s key reaches nothing (or the wrong session)' % bad,
+                       {k: g(k) for k in ids},
+                       {'commands': [{'op': 'server_script', 'pre': {'client_map': [], 'process_id': g('s_pid'), 'secret_key': g('s_key')}, 'inbound_hex': '',
+                                      'steps': [{'do': 'claim', 'pid': g('p_pid'), 'key': g('p_key')},
+                                                {'do': 'map_put', 'pid': g('p_pid'), 'key': g('p_key'), 'spid': g('s2_pid'), 'skey': g('s2_key'), 'host': '127.0.0.2', 'port': 5433},
+                                                {'do': 'claim', 'pid': g('q_pid'), 'key': g('q_key')}]}], 'expect': ['c10_map', want]})
+        if not ob.samples:
+            ob.samples.append({'entries_after': len(m.entries)})
+    ip.explore(harness)
+    chk.absorb(ob, ip)
+    chk.end(ob)
+
+
 def o1_release(chk, prog, n, which):
     name = 'O1-%s-%dentries' % (which, n)
     ob = chk.begin(name, 'Client::%s on a cancel map with %d arbitrary entries (one of which may be the client\'s own): afterwards the client\'s '
@@ -328,6 +383,7 @@ def main(chk):
         tasks.append((o1_release, (prog, n, 'release')))
         tasks.append((o1_release, (prog, n, 'drop')))
         tasks.append((o2_cancel, (prog, n)))
+    tasks.append((o1_reclaim, (prog,)))
     tasks.append((o3_roundtrip, (prog, 1)))
     tasks.append((o3_roundtrip, (prog, 2)))
     chk.parallel(_dispatch, tasks)
